@@ -632,7 +632,8 @@ def run(rep, ctx):
         raise AnalysisBroken("C13.S1: only %d specialisations found" % len(classes))
     PTS = {"default": [0.13, 0.37, 0.71, 0.93], "Acosh": [1.3, 2.1, 3.7, 9.0], "Log": [0.3, 1.7, 4.0, 30.0], "LogA": [0.3, 1.7, 4.0, 30.0],
            "Atanh": [-0.6, -0.2, 0.3, 0.8], "Asin": [-0.6, -0.2, 0.3, 0.8], "Acos": [-0.6, -0.2, 0.3, 0.8]}
-    PARAMS = [{"A_": 2.5, "logA_": math.log(2.5), "p0": 3.0}, {"A_": 0.4, "logA_": math.log(0.4), "p0": 2.5}]
+    # parameter samples: bases above and below 1, exponents of either sign (x^a with a < 0 is approximated too)
+    PARAMS = [{"A_": 2.5, "logA_": math.log(2.5), "p0": 3.0}, {"A_": 0.4, "logA_": math.log(0.4), "p0": 2.5}, {"A_": 1.7, "logA_": math.log(1.7), "p0": -1.5}]
     covered = skipped = 0
     for cid, fs in sorted(classes.items()):
         ex = {}
@@ -654,10 +655,18 @@ def run(rep, ctx):
             worst = 0.0
             for P in PARAMS:
                 for x in (domain or pts):
-                    try:
-                        a, b = ev(e1, x, P), ev(e2, x, P)
-                    except (ValueError, ZeroDivisionError, OverflowError):
+                    va = []
+                    for e_ in (e1, e2):
+                        try:
+                            va.append(ev(e_, x, P))
+                        except (ValueError, ZeroDivisionError, OverflowError):
+                            va.append(None)
+                    if va[0] is None and va[1] is None:
+                        continue              # outside the common domain
+                    if va[0] is None or va[1] is None:
+                        worst = float("inf")  # one side is undefined (NaN in C++) where the other has a value
                         continue
+                    a, b = va
                     worst = max(worst, abs(a - b) / max(1.0, abs(a), abs(b)))
             covered += 1
             s1.check(worst < 1e-9, "%s|%s" % (cid, name), where, "%s: %s agrees (max rel. difference %.1e)" % (cid, name, worst),
@@ -697,9 +706,19 @@ def run(rep, ctx):
                     for x in pts:
                         try:
                             y = ev(ex[fwd][0], x, P)
-                            back = ev(ex[fwd][0], ev(re_, y, P), P)
                         except (ValueError, ZeroDivisionError, OverflowError):
                             continue
+                        try:
+                            xi = ev(re_, y, P)
+                        except (ValueError, ZeroDivisionError, OverflowError):
+                            # the inverse formula itself is undefined (NaN in C++) at a value the forward function takes
+                            n += 1
+                            worst = float("inf")
+                            continue
+                        try:
+                            back = ev(ex[fwd][0], xi, P)
+                        except (ValueError, ZeroDivisionError, OverflowError):
+                            continue              # the branch of the other side of the domain
                         n += 1
                         worst = max(worst, abs(abs(back) - abs(y)) / max(1.0, abs(y)))
                 covered += 1
